@@ -44,6 +44,7 @@ type Expr struct {
 	Kids  []*Expr
 	Mode  string // conv: id | filter | cverr
 	Share int    // array: > 0 = every array expression with this number wraps the same caller-owned slice
+	Skip  int    // array: this many items have already been received from the reader before it enters the tree
 }
 
 type CopyNode struct {
@@ -76,6 +77,9 @@ func A(items ...Item) *Expr { return &Expr{Kind: "array", Items: items} }
 func AS(share int, items ...Item) *Expr {
 	return &Expr{Kind: "array", Items: items, Share: share}
 }
+
+// AR is an array reader that has been partly read (k items) before it is merged / copied / converted.
+func AR(k int, items ...Item) *Expr { return &Expr{Kind: "array", Items: items, Skip: k} }
 func Cp(node, out int) *Expr        { return &Expr{Kind: "copy", Copy: node, Out: out} }
 func M(kids ...*Expr) *Expr         { return &Expr{Kind: "merge", Kids: kids} }
 func Cv(mode string, k *Expr) *Expr { return &Expr{Kind: "conv", Mode: mode, Kids: []*Expr{k}} }
@@ -125,7 +129,7 @@ func (sp *Spec) sources(e *Expr) [][]Item {
 	case "pipe":
 		return [][]Item{sp.Pipes[e.Pipe].Items}
 	case "array":
-		return [][]Item{e.Items}
+		return [][]Item{e.Items[e.Skip:]}
 	case "copy":
 		return sp.sources(sp.Copies[e.Copy].In)
 	case "merge":
@@ -288,7 +292,11 @@ func (sp *Spec) build() (func(), func(x *vsched.Exec) (string, error)) {
 					}
 					return schema.StreamReaderFromArray(shared[e.Share])
 				}
-				return schema.StreamReaderFromArray(append(make([]Item, 0, len(e.Items)+4), e.Items...))
+				ar := schema.StreamReaderFromArray(append(make([]Item, 0, len(e.Items)+4), e.Items...))
+				for k := 0; k < e.Skip; k++ {
+					ar.Recv() // received by an earlier reader of the same value: these items are gone
+				}
+				return ar
 			case "copy":
 				if copies[e.Copy] == nil {
 					copies[e.Copy] = mk(sp.Copies[e.Copy].In).Copy(sp.Copies[e.Copy].N)
@@ -543,6 +551,14 @@ func templates() []template {
 		}, false},
 		{"arrayCopyMergedPipe", 1, 2, func(ps []PipeSpec) ([]CopyNode, []*Expr) {
 			return []CopyNode{{A(Item{V: 91}, Item{V: 92}), 2}}, []*Expr{M(Cp(0, 0), A(Item{V: 71})), M(Cp(0, 1), P(0))}
+		}, false},
+		// an array reader that was partly read before it is merged (with an array: stays an array; with a pipe: sent into a
+		// channel), copied or converted: the items already received are not delivered again
+		{"arrayReadThenMerged", 1, 2, func(ps []PipeSpec) ([]CopyNode, []*Expr) {
+			return nil, []*Expr{M(AR(1, Item{V: 91}, Item{V: 92}, Item{V: 93}), A(Item{V: 71})), M(AR(2, Item{V: 61}, Item{V: 62}, Item{V: 63}), P(0))}
+		}, false},
+		{"arrayReadThenCopied", 0, 3, func(ps []PipeSpec) ([]CopyNode, []*Expr) {
+			return []CopyNode{{AR(1, Item{V: 91}, Item{V: 92}, Item{V: 93}), 2}}, []*Expr{Cp(0, 0), M(Cp(0, 1), A(Item{V: 71})), Cv("id", AR(2, Item{V: 61}, Item{V: 62}, Item{V: 63}))}
 		}, false},
 		{"copyOneMerged", 2, 2, func(ps []PipeSpec) ([]CopyNode, []*Expr) {
 			return []CopyNode{{P(0), 2}}, []*Expr{M(Cp(0, 0), P(1)), Cp(0, 1)}
